@@ -16,6 +16,7 @@ import (
 	"github.com/ethereum/go-ethereum/rlp"
 	"github.com/ethereum/go-ethereum/trie"
 	"github.com/polynetwork/poly/common"
+	ccm "github.com/polynetwork/poly/native/service/cross_chain_manager"
 	scom "github.com/polynetwork/poly/native/service/cross_chain_manager/common"
 
 	"verifh/kit/nativekit"
@@ -352,6 +353,7 @@ func proofTable(args []string) {
 		Mismatches int    `json:"mismatches"`
 		Classes    int    `json:"distinct_classes"`
 		CanonOK    bool   `json:"world_ok"`
+		Entrance   string `json:"panic_through_ImportExTransfer,omitempty"`
 	}
 	sum := sumT{Summary: true, Router: r.Name, Rows: len(rows), CanonOK: true}
 	classes := map[string]bool{}
@@ -388,6 +390,18 @@ func proofTable(args []string) {
 			case pan != "":
 				res.Got, res.Panic = "panic", pan
 				sum.Panics++
+				if sum.Entrance == "" {
+					// is the same input a panic through the public entrance of the cross-chain manager contract as well?
+					ns2 := sb.Service(nativekit.Tx(opAccount.Address), sink.Bytes())
+					var e2 error
+					p2 := vio.Safe(func() { _, e2 = ccm.ImportExTransfer(ns2) })
+					sb.Cache.Reset()
+					if p2 != "" {
+						sum.Entrance = "panics"
+					} else {
+						sum.Entrance = fmt.Sprintf("returns: %v", e2)
+					}
+				}
 			case err != nil:
 				res.Got, res.Err = "reject", err.Error()
 				sum.Rejects++
